@@ -101,6 +101,8 @@ func c15Scenarios(tier string) (rulesSc, lockSc []CScenario) {
 		)
 	}
 	lockSc = append(lockSc, big...)
+	// An instance that has already served thousands of other keys.
+	lockSc = append(lockSc, CScenario{Name: "att(0)||att(0)||atts[1 0] after many other keys", WarmKeys: warmKeys(tier), Threads: [][]CReq{{att1(0, 0, 1)}, {att1(0, 1, 2)}, {attsN([]int{1, 0}, 2, 3)}}})
 	rulesSc = append(rulesSc, big[1]) // with the real rules and store: the smallest size only (the locks are what matters)
 	rulesSc = append(rulesSc,
 		CScenario{Name: "atts[0 1]||atts[1 0]||att(1)", Threads: [][]CReq{{attsN([]int{0, 1}, 0, 1)}, {attsN([]int{1, 0}, 1, 2)}, {att1(1, 2, 3)}}},
